@@ -155,13 +155,17 @@ Definition e_c15_sex (v : val) : val :=
   | _ => bad_input
   end.
 
-(* [hap; is_xx|None; bins] -> log2 of every output bin *)
+(* [hap; is_xx|None (already guessed); build; bins] -> log2 of every output bin.  An unsupported build
+   asserts only where chr_x_filter is evaluated, i.e. in the two shifting cases *)
 Definition e_c15_shift_xx (v : val) : val :=
   match v with
-  | VL [hp; xx; bs] =>
-      match getB hp, getOpt getB xx, getBins bs with
-      | Some hap, Some is_xx, Some t => vListQ (map b_log2 (shift_xx hap is_xx t))
-      | _, _, _ => bad_input
+  | VL [hp; xx; bd; bs] =>
+      match getB hp, getOpt getB xx, getBuild bd, getBins bs with
+      | Some hap, Some is_xx, Some (Some build), Some t => vListQ (map b_log2 (shift_xx hap is_xx build t))
+      | Some hap, Some is_xx, Some None, Some t =>
+          let xx := match is_xx with Some true => true | _ => false end in
+          if Bool.eqb xx hap then VErr "Assertion" else vListQ (map b_log2 t)
+      | _, _, _, _ => bad_input
       end
   | _ => bad_input
   end.
